@@ -187,6 +187,12 @@ fn corpus(ctx: &mut Ctx) {
     emit(ctx, &e, &rho, &mu, &s3);
     let s4: Subst = vec![("x".into(), num(1.0, 1.0)), ("y".into(), real(1.0)), ("z".into(), real(2.0))];
     emit(ctx, &e, &vec![], &vec![], &s4);
+    // hash-consing witness: children are interned with an equality that identifies +0.0 and -0.0, so the
+    // substituted `-4+0i` is replaced by the live, "equal" `-4-0i` and lands on the other side of sqrt's branch cut
+    let w = infix(call(SquareRoot, num(-4.0, -0.0)), I::Plus, call(SquareRoot, var("t")));
+    emit(ctx, &w, &vec![], &vec![], &vec![("t".into(), num(-4.0, 0.0))]);
+    let w2 = infix(infix(real(1.0), I::Slash, real(-0.0)), I::Plus, infix(real(1.0), I::Slash, var("t")));
+    emit(ctx, &w2, &vec![], &vec![], &vec![("t".into(), real(0.0))]);
     // substituting a variable that does not occur, and one that ρ also binds (σ wins)
     emit(ctx, &var("x"), &rho, &mu, &vec![("x".into(), real(7.0)), ("q".into(), real(8.0))]);
 }
